@@ -191,6 +191,18 @@ func main() {
 							callsites[fname(f)][fname(g)]++
 						} else {
 							extMethodCall(writes, g, c.Args)
+							// a plain function of another package that is handed the ADDRESS of package state
+							// (sync/atomic.AddInt32(&counter, 1), sort.Sort on a global, ...) may write it
+							if g.Signature.Recv() == nil {
+								for ai, a := range c.Args {
+									if _, ok := a.Type().Underlying().(*types.Pointer); !ok {
+										continue
+									}
+									if ra := root(a, 0); strings.HasPrefix(ra, "global:") {
+										writes[fmt.Sprintf("extcall:%s:%s#%d", ra, g.String(), ai)] = true
+									}
+								}
+							}
 						}
 						for _, a := range c.Args {
 							if mc, ok := a.(*ssa.MakeClosure); ok {
